@@ -123,3 +123,48 @@ void h_lweKeySwitch(void) {
     VERIF_REACH();
 }
 #endif
+
+#ifdef H_TRANSLATE_U
+/* Unbounded in n (loop contracts on both loops): lweKeySwitchTranslate_fromArray on inputs whose n mask coefficients all equal one
+ * symbolic value A (all 2^32 values) and whose table rows ks[i] all point to one well-formed (t x base) row block
+ * (__CPROVER_array_set: a quantifier-free way to give EVERY index i < n a valid row).  Decides for every n: all table accesses are in
+ * bounds (i < n, j < t, digit < base), every subtraction uses the row of the property's round-to-nearest digit, exactly one
+ * subtraction per non-zero digit, none for zero digits, always on the result sample.  That the body of iteration i depends only on
+ * a_i and ks[i] (so that equal coordinates lose nothing) is a syntactic fact about the loop, not machine-checked. */
+#define T_ VERIF_T
+#define BB_ VERIF_BASEBIT
+#define BASE_ (1 << VERIF_BASEBIT)
+#define K_ (32 - T_ * BB_)
+#define DIG(A, j) ((uint32_t)(((((uint64_t)(uint32_t)(A) + ((uint64_t)1 << (K_ - 1))) >> K_) & ((((uint64_t)1) << (T_ * BB_)) - 1)) >> ((T_ - 1 - (j)) * BB_)) & (uint32_t)(BASE_ - 1))
+#include "tnz.inc"      /* generated per t: TNZ_PREFIX(A, j) = #{ j' < j : DIG(A, j') != 0 } */
+#include "c_ks.h"
+static LweSample *rowp[T_];   /* t separately allocated blocks of base samples */
+int32_t u_bad, u_cnt; Torus32 u_A; static LweSample *u_res; static const LweParams *u_par;
+/* monitor, loop-free (TFOR is generated per t): which row block does `sample` point into, and is it the row of the property's digit? */
+#define U_ROWCHECK(j) if (__CPROVER_same_object(sample, rowp[j])) { long d = sample - rowp[j]; found = 1; if (d <= 0 || d >= BASE_ || (uint32_t)d != DIG(u_A, j)) u_bad++; }
+void lweSubTo(LweSample *result, const LweSample *sample, const LweParams *params) {
+    int found = 0;
+    TFOR(U_ROWCHECK)
+    if (!found || result != u_res || params != u_par) u_bad++;
+    u_cnt++;
+}
+#include "extracted.inc"
+void h_translate_unbounded(void) {
+    int32_t n; __CPROVER_assume(n >= 1 && n <= VERIF_NMAX);
+#define U_ALLOC(j) rowp[j] = verif_alloc((size_t)BASE_ * sizeof(LweSample));
+    TFOR(U_ALLOC)
+    const LweSample ***ks = verif_alloc((size_t)n * sizeof(const LweSample **));
+    __CPROVER_array_set(ks, (const LweSample **)rowp);
+    Torus32 *ai = verif_alloc((size_t)n * sizeof(Torus32));
+    Torus32 in_A; u_A = in_A;
+    __CPROVER_array_set(ai, in_A);
+    LweSample res; LweParams op; u_res = &res; u_par = &op; u_bad = 0; u_cnt = 0;
+    lweKeySwitchTranslate_fromArray(&res, ks, &op, ai, n, T_, BB_);
+    __CPROVER_assert(u_bad == 0, "every subtraction uses row (i, j, digit_j(a_i)) with the property's round-to-nearest digit, on the result sample");
+    __CPROVER_assert((int64_t)u_cnt == (int64_t)n * TNZ_PREFIX(in_A, T_), "exactly one subtraction per non-zero digit, none for zero digits, for every i < n");
+#define U_FREE(j) free(rowp[j]);
+    TFOR(U_FREE)
+    free(ks); free(ai);
+    VERIF_REACH();
+}
+#endif
